@@ -57,7 +57,7 @@ LEVEL_TEXT = ("Proof. Lean theorems over the sequencing model composed with C05'
               "non-stale and extending => admitted, counter+1, last=u; non-stale and not extending => InvalidSequence{last,U}, state unchanged - exclusive and "
               "exhaustive), sequencer_error_terminal / terminal_iff (the only sequencer error is the terminal one), admitted_chain / admitted_linked / "
               "admitted_not_stale (for ANY message list after a snapshot at s, even continuing past errors, the admitted updates satisfy spot: first U<=s+1<=u then "
-              "U=prev u+1; futures: first U<=s<=u then pu=prev u; the sequencer counts exactly them and reports the last u), key_lemma / key_lemma_side / untouched, "
+              "U=prev u+1; futures: first U<=s<=u then pu=prev u; the sequencer counts exactly them and reports the last u), key_lemma / key_lemma_side / untouched / bookAt_is_history_prefix (for ids strictly increasing bookAt(id of c) is the history up to c applied in order), "
               "book_is_truth (every delivery of genuine messages - any drops, duplicates, swaps, replays, early/late start - processed to the first error leaves a "
               "strictly ordered book whose sequence is the sequencer's last id and whose two sides denote exactly the venue's book as of that sequence; an early stop "
               "is a terminal error), book_is_truth_exact (with a zero-free snapshot the book is literally specBook, the value the spec driver computes from the venue), "
